@@ -48,6 +48,9 @@ func runWMPT(args []string) (map[string]any, error) {
 				for i := range h.Ops {
 					if h.Ops[i].Op == "update" {
 						h.Ops[i].V = fmt.Sprintf("%s#%d", h.Ops[i].V, h.Ops[i].K)
+						if nTLC%4 == 1 {
+							h.Ops[i].V += exec.LongPad(h.Ops[i].K)
+						}
 					}
 				}
 			} else {
